@@ -1,7 +1,13 @@
 """C12/C13: regenerate lean/SvtVerif/Gen/Config.lean from EbEncHandle.c (clang AST):
    svt_svt_enc_init_parameter, set_default_configuration_parameters, copy_api_from_app, verify_settings and the
-   helpers they call.  Refuses (cfun.Unsupported) on anything outside the whitelist, except the one block
-   documented as opaque: the manual-prediction-structure validation loop (modelled as an input flag)."""
+   helpers they call.  Refuses (cfun.Unsupported) on anything outside the whitelist.
+   * `pred_struct` (array of PredictionStructureConfigEntry) is modelled element-wise: Lean structure `PredEntry` with the members
+     of the C struct, `List PredEntry` of the declared length; the EB_MEMCPY of copy_api_from_app is a bounded prefix copy
+     (`copyPrefixE`, out-of-bounds counts recorded in `oob`).
+   * A top-level statement of verify_settings that is not a pure `if (cond) { log; return_error = BadParameter; }` tree (the
+     manual-prediction-structure block: nested `for` loops, loop-local flags, a write into the configuration copy) is translated
+     as a whole by the state-passing translator (cstate.block) into a helper `h_verify_settings_block<k> : Scs -> (return_error, oob)`;
+     the rule fires iff return_error ends non-zero."""
 import json
 import os
 import re
@@ -16,6 +22,8 @@ from cfun import Unsupported, ident
 
 SRC = "Source/Lib/Encoder/Globals/EbEncHandle.c"
 STRUCT_MEMBERS = {"rc_twopass_stats_in": ["buf", "sz"]}
+# member arrays of structs that are modelled element-wise: member -> (C struct name, Lean structure name)
+STRUCT_ARRAYS = {"pred_struct": ("PredictionStructureConfigEntry", "PredEntry")}
 
 
 def first_string(n):
@@ -40,7 +48,25 @@ class Gen:
         self.helper_names = {}     # C name -> lean name
         self.helper_reads = {}
         self.opaque = []
+        self.struct_defs = {}      # Lean structure name -> {member: ("int", ctype) | ("list", ctype, len)}
+        self.struct_ctype = {}     # Lean structure name -> C struct name
+        self.verify_oob = []       # oob terms of verify_settings blocks translated as state-passing helpers
+        self.block_helpers = {}
         for f in cfgfields.fields():
+            if f["struct"] and f["name"] in STRUCT_ARRAYS and f["array"]:
+                cname, lname = STRUCT_ARRAYS[f["name"]]
+                if f["qual"] != cname:
+                    raise Unsupported("member %s is no longer an array of %s" % (f["name"], cname))
+                mem = {}
+                for m in cfgfields.fields(cname):
+                    if m["struct"]:
+                        raise Unsupported("nested struct member %s.%s" % (cname, m["name"]))
+                    mem[m["name"]] = ("int", m["ctype"]) if m["array"] is None else ("list", m["ctype"], m["array"])
+                self.struct_defs[lname] = mem
+                self.struct_ctype[lname] = cname
+                self.cfg.fields[f["name"]] = ("structlist", lname, f["array"])
+                self.scs.fields["static_config_" + f["name"]] = ("structlist", lname, f["array"])
+                continue
             if f["struct"]:
                 for m in STRUCT_MEMBERS.get(f["name"], []):
                     self.cfg.fields[f["name"] + "_" + m] = ("int", ("S", 64))
@@ -67,6 +93,7 @@ class Gen:
         cx.stmt_calls = {"memset": self.st_memset, "memcpy": self.st_memcpy, "svt_memcpy_app": self.st_memcpy,
                          "svt_memcpy": self.st_memcpy}
         cx.struct_members = {}
+        cx.struct_defs = self.struct_defs
         for b in bases:
             for sname, ms in STRUCT_MEMBERS.items():
                 pre = "static_config_" if bases[b] is self.scs and not b.endswith("static_config") else ""
@@ -123,6 +150,27 @@ class Gen:
         args = " ".join(cfun.expr(a, cx) for a in node["inner"][1:])
         return "(h_%s %s)" % (name, args)
 
+    # ---- a top-level statement of verify_settings that is not a pure rejection tree
+    def block_helper(self, n, cx, idx, store_mode):
+        name = "h_verify_settings_block%d" % idx
+        if name not in self.block_helpers:
+            hcx = self.ctx({"scs_ptr": self.scs})
+            hcx.aliases = dict(cx.aliases)
+            hcx.local_defs = dict(cx.local_defs)
+            hcx.declared = ["return_error"]
+            term = cstate.block([n], hcx, "(return_error, s.oob)", "  ")
+            self.helpers.append("/-- %s:verify_settings, statement %d translated as a whole (state-passing): returns (return_error, s.oob);\n"
+                                "    `return_error` starts at 0 = EB_ErrorNone and the statement rejects iff it ends non-zero -/\n"
+                                "def %s (s : Scs) : Int × Int :=\n  let return_error : Int := (0 : Int)\n  %s\n" % (SRC, idx, name, term))
+            self.block_helpers[name] = sorted(hcx.reads)
+        if not store_mode:
+            return "((%s s).1 != 0)" % name
+        store = cx.store
+        ups = ["%s := %s" % (k.split(".", 1)[1], store[k]) for k in self.block_helpers[name] if k in store and store[k] != k]
+        arg = self.scs.var if not ups else "{ %s with %s }" % (self.scs.var, ", ".join(ups))
+        self.verify_oob.append("(%s %s).2" % (name, arg))
+        return "((%s %s).1 != 0)" % (name, arg)
+
     # ---- memset / memcpy on member arrays
     def _arr(self, n, cx):
         t = cstate.strip_casts(n)
@@ -151,13 +199,8 @@ class Gen:
     def st_memcpy(self, s, cx, ind):
         dsv, df, dt = self._arr(s["inner"][1], cx)
         ssv, sf, st = self._arr(s["inner"][2], cx)
-        if df.endswith("pred_struct"):
-            # opaque: copies `manual_pred_struct_entry_num` entries of a struct array (not modelled); the only thing
-            # kept is whether the byte count stays inside the 32-entry array.
-            self.opaque.append("copy_api_from_app: EB_MEMCPY of pred_struct entries (contents not modelled; bounds tracked in oob)")
-            n = "%s.manual_pred_struct_entry_num" % ssv.var
-            return ("let %s := { %s with oob := (if decide (%s < 0) || decide (%s > 32) then 1 else %s.oob) }\n%s"
-                    % (dsv.var, dsv.var, n, n, dsv.var, ind))
+        if dsv.fields[df][0] == "structlist":
+            raise Unsupported("memcpy of a struct array inside a helper function")
         cx.read_member(cfun.member_path(dt, cx.aliases), dt)
         cx.read_member(cfun.member_path(st, cx.aliases), st)
         ent = dsv.fields[df]
@@ -175,6 +218,8 @@ class Gen:
         base = self.ctx(bases)
         cx.bases, cx.user_calls = bases, base.user_calls
         cx.struct_members = base.struct_members
+        cx.struct_defs = self.struct_defs
+        cx.struct_ctype = self.struct_ctype
         return cx
 
     def body_of(self, name):
@@ -294,15 +339,11 @@ class Gen:
             try:
                 t = rej(n)
             except Unsupported as e:
-                txt = json.dumps(n["inner"][0]) if k == "IfStmt" else ""
-                if "enable_manual_pred_struct" in txt:
-                    self.opaque.append("verify_settings: manual prediction structure validation loop (flag manual_pred_struct_rejected)")
-                    self.scs.fields.setdefault("manual_pred_struct_rejected", ("int", ("U", 8)))
-                    t = "(%s && (s.manual_pred_struct_rejected != 0))" % cfun.cond(n["inner"][0], cx)
-                    cx.local_defs.update(saved_locals)
-                    label = "manual prediction structure (opaque)"
-                else:
-                    raise
+                # not a pure `if (cond) { log; return_error = BadParameter; }` tree (loops, loop-local flags, writes into the
+                # configuration copy): translate the whole statement as a state-passing helper  s |-> (return_error, s.oob)
+                cx.local_defs.clear()
+                cx.local_defs.update(saved_locals)
+                t = self.block_helper(n, cx, len(checks), store is not None)
             if t == "false":
                 return
             if guard:
@@ -335,6 +376,8 @@ class Gen:
         for f, ent in sv.fields.items():
             if ent[0] in ("int", "blob"):
                 flds.append("  %s : Int := 0\n" % ident(f))
+            elif ent[0] == "structlist":
+                flds.append("  %s : List %s := List.replicate %d {}\n" % (ident(f), ent[1], ent[2]))
             else:
                 flds.append("  %s : List Int := List.replicate %d 0\n" % (ident(f), ent[2] or 0))
         if sv is self.scs:
@@ -346,10 +389,43 @@ class Gen:
         out.append("structure %s extends %s\n" % (sv.type_name, ", ".join("%sPart%d" % (sv.type_name, i) for i in range(len(parts)))))
         return "".join(out)
 
+    def struct_decls(self):
+        """Lean structures for the elements of modelled struct arrays + fill / bounded copy / range predicate."""
+        out = []
+        for lname, mem in self.struct_defs.items():
+            flds, fill, wt = [], [], []
+            for m, ent in mem.items():
+                k, n = ent[1]
+                lo, hi = (0, 2 ** n - 1) if k in ("U", "E") else (-(2 ** (n - 1)), 2 ** (n - 1) - 1)
+                fv = "CSem.fillS %d b" % n if k == "S" else "CSem.fillU %d b" % n
+                if ent[0] == "int":
+                    flds.append("  %s : Int := 0\n" % ident(m))
+                    fill.append("%s := %s" % (ident(m), fv))
+                    wt.append("(%d ≤ e.%s ∧ e.%s ≤ %d)" % (lo, ident(m), ident(m), hi))
+                else:
+                    flds.append("  %s : List Int := List.replicate %d 0\n" % (ident(m), ent[2]))
+                    fill.append("%s := List.replicate %d (%s)" % (ident(m), ent[2], fv))
+                    wt.append("(e.%s.length = %d ∧ ∀ v ∈ e.%s, %d ≤ v ∧ v ≤ %d)" % (ident(m), ent[2], ident(m), lo, hi))
+            out.append("/-- one element of a member array of `%s` (Source/API/EbSvtAv1Enc.h) -/\nstructure %s where\n%s\n"
+                       "instance : Inhabited %s := ⟨{}⟩\n\n"
+                       "/-- the element after `memset(.., b, ..)` -/\ndef %s.fill (b : Int) : %s :=\n  { %s }\n\n"
+                       "/-- every member holds a value of its C type -/\ndef %s.WellTyped (e : %s) : Prop :=\n  %s\n\n"
+                       "instance : DecidablePred %s.WellTyped := fun e => by unfold %s.WellTyped; infer_instance\n\n"
+                       % (self.struct_ctype[lname], lname, "".join(flds), lname, lname, lname, ", ".join(fill), lname, lname,
+                          " ∧\n  ".join(wt), lname, lname))
+        if self.struct_defs:
+            out.append("/-- `memcpy(&dst[0], &src[0], n * sizeof(element))` on in-bounds elements (out-of-bounds counts are tracked separately) -/\n"
+                       "def copyPrefixE {α : Type} [Inhabited α] (n : Int) (src dst : List α) : List α :=\n"
+                       "  (List.range n.toNat).foldl (fun d i => d.set i (src.getD i default)) dst\n\n")
+        return "".join(out)
+
     def typed_pred(self, sv, name):
         """Range predicate: every member holds a value of its C type (one named field per member)."""
         flds = []
         for f, ent in sv.fields.items():
+            if ent[0] == "structlist":
+                flds.append("  %s : x.%s.length = %d ∧ ∀ e ∈ x.%s, e.WellTyped\n" % (ident(f), ident(f), ent[2], ident(f)))
+                continue
             k, n = ent[1]
             if k == "P":
                 continue
@@ -367,20 +443,21 @@ class Gen:
         vf = self.verify()
         rc = self.verify(store=self.store_effective)
         oob = self.store_effective.get("s.oob", "s.oob")
+        oob_all = "(%s) != 0" % oob + "".join(" ||\n  (%s) != 0" % t for t in self.verify_oob)
         hdr = ("/- GENERATED by xlate/config.py from /repo %s (clang-14 JSON AST). Do not edit.\n"
                "   Opaque (modelled as inputs, not translated):\n%s -/\nimport SvtVerif.CSem\nset_option linter.unusedVariables false\n"
                "set_option maxRecDepth 4000\nnamespace Gen.Config\n\n"
                % (SRC, "".join("     * %s\n" % o for o in sorted(set(self.opaque)))))
-        parts = [hdr, self.structure(self.cfg), "\n", self.structure(self.scs), "\n",
-                 self.typed_pred(self.cfg, "Cfg.WellTyped"), "\n"]
+        parts = [hdr, self.struct_decls(), self.structure(self.cfg), "\n", self.structure(self.scs), "\n",
+                 self.typed_pred(self.cfg, "Cfg.WellTyped"), "\n", self.typed_pred(self.scs, "Scs.WellTyped"), "\n"]
         parts += [h + "\n" for h in self.helpers]
         parts += [ip, "\n", sd, "\n", ca, "\n", vf, "\n", rc, "\n",
                   "/-- what svt_av1_enc_set_parameter decides (EB_ErrorNone ⇔ true), in normal form -/\n"
                   "def setParameterAccepts (s0 : Scs) (c : Cfg) : Bool := rejectChecks.all (fun p => ! p.2 s0 c)\n\n"
                   "/-- the same, computed the way the C code does (used by the driver to cross-check the normal form) -/\n"
                   "def setParameterAcceptsOperational (s0 : Scs) (c : Cfg) : Bool := verify (copyApi (setDefaults s0) c)\n\n"
-                  "/-- copy_api_from_app would write (or read) outside a member array -/\n"
-                  "def setParameterOob (s : Scs) (c : Cfg) : Bool :=\n  (%s) != 0\n\n" % oob,
+                  "/-- copy_api_from_app (or a translated loop of verify_settings) would write (or read) outside a member array -/\n"
+                  "def setParameterOob (s : Scs) (c : Cfg) : Bool :=\n  %s\n\n" % oob_all,
                   "def cfgFieldNames : List String := %s\n\n" % json.dumps([ident(f) for f in self.cfg.fields]),
                   "def initAssigned : List String := %s\n\n" % json.dumps(self.init_assigned),
                   self.setter(), "\n", self.getter(), "\n", self.filler(), "\n",
@@ -393,7 +470,18 @@ class Gen:
         for f, ent in self.cfg.fields.items():
             kw = "if" if first else "else if"
             first = False
-            if ent[0] in ("int", "blob"):
+            if ent[0] == "structlist":
+                # element members by flattened name: `<arr>_<member>[i]`, list members `<arr>_<member>[i*len+j]`
+                for m, ment in self.struct_defs[ent[1]].items():
+                    nm = json.dumps("%s_%s" % (f, m))
+                    if ment[0] == "int":
+                        out.append("  %s name == %s then some { c with %s := c.%s.set idx { (c.%s.getD idx default) with %s := v } }\n"
+                                   % (kw, nm, ident(f), ident(f), ident(f), ident(m)))
+                    else:
+                        out.append("  %s name == %s then some { c with %s := c.%s.set (idx / %d) { (c.%s.getD (idx / %d) default) with %s := (c.%s.getD (idx / %d) default).%s.set (idx %% %d) v } }\n"
+                                   % (kw, nm, ident(f), ident(f), ment[2], ident(f), ment[2], ident(m), ident(f), ment[2], ident(m), ment[2]))
+                    kw = "else if"
+            elif ent[0] in ("int", "blob"):
                 out.append("  %s name == %s then some { c with %s := v }\n" % (kw, json.dumps(f), ident(f)))
             else:
                 out.append("  %s name == %s then some { c with %s := c.%s.set idx v }\n" % (kw, json.dumps(f), ident(f), ident(f)))
@@ -404,6 +492,9 @@ class Gen:
         out = ["/-- the configuration object after `memset(&cfg, b, sizeof cfg)` -/\ndef Cfg.fillByte (b : Int) : Cfg :=\n  {"]
         items = []
         for f, ent in self.cfg.fields.items():
+            if ent[0] == "structlist":
+                items.append("%s := List.replicate %d (%s.fill b)" % (ident(f), ent[2], ent[1]))
+                continue
             k, n = ent[1]
             v = "CSem.fillS %d b" % n if k == "S" else "CSem.fillU %d b" % n
             items.append("%s := %s" % (ident(f), v) if ent[0] in ("int", "blob") else "%s := List.replicate %d (%s)" % (ident(f), ent[2], v))
@@ -415,7 +506,7 @@ class Gen:
         out = ["/-- all members as `name value` lines (arrays one line per element) -/\ndef Cfg.dump (c : Cfg) : List (String × Int) :=\n  ["]
         items = []
         for f, ent in self.cfg.fields.items():
-            if ent[0] == "blob":
+            if ent[0] in ("blob", "structlist"):
                 continue
             if ent[0] == "int":
                 items.append("(%s, c.%s)" % (json.dumps(f), ident(f)))
